@@ -262,6 +262,10 @@ TARGETS = [
          subst={"$size": "KEY_SIZE", "$name": "KeyName"}, consts={"KEY_SIZE": ("key_size", "usize")}, extra_params=["(key_size : N)"]),
     dict(name="normalized_string_new", file="src/normalized_string.rs", fn="inner", kind="function", ret="nstr_view + ns_error",
          consts={"MAXIMUM_STRING_LENGTH_IN_BYTES": ("max_string_length", "u8")}),
+    dict(name="normalized_string_new_outer", file="src/normalized_string.rs", fn="new", kind="function", ret="nstr_view + ns_error",
+         opt_calls={"inner": ("tr_normalized_string_new", "res")}, identity=["as_ref"]),
+    dict(name="normalized_string_as_ref", file="src/normalized_string.rs", fn="as_ref", kind="method", helpers=[], readonly=True,
+         fields=[("s", ("arr", "u8")), ("length", "u8")], ret=("arr", "u8")),
     dict(name="normalized_string_from_str", file="src/normalized_string.rs", fn="from_str", kind="function", ret="nstr_view + ns_error", opt_calls={"Self::new": ("tr_normalized_string_new", "res")}),
     dict(name="normalized_string_from_string", file="src/normalized_string.rs", fn="from_string", kind="function", ret="nstr_view + ns_error", opt_calls={"Self::new": ("tr_normalized_string_new", "res")}),
     dict(name="normalized_string_try_from_str", file="src/normalized_string.rs", fn="try_from", nth=0, kind="function", ret="nstr_view + ns_error", opt_calls={"Self::new": ("tr_normalized_string_new", "res")}),
